@@ -13,6 +13,7 @@ import Driver.Unit
 import Driver.Command
 import Driver.Junit
 import Driver.Display
+import Driver.Timer
 import Driver.Attempts
 import Driver.System
 namespace Driver
@@ -22,6 +23,7 @@ def dispatch (line : String) : String :=
   | "attempts" :: rest => (handleAttempts rest).getD "bad-op"
   | "junit" :: rest => (handleJunit rest).getD "bad-op"
   | "xmltext" :: rest => (handleXmlText rest).getD "bad-op"
+  | "psleep" :: rest => (handlePSleep rest).getD "bad-op"
   | "hext" :: rest => (handleHext rest).getD "bad-op"
   | "hlend" :: rest => (handleHlend rest).getD "bad-op"
   | "show" :: rest => (handleShow rest).getD "bad-op"
